@@ -20,14 +20,16 @@ type tat = testproto.TestAllTypes
 // well-behaved interceptors: they read old, write only into the message being written, and copy values (no
 // pointers from old are put into the new message: old is documented as read-only information)
 func goodBefore(old, value proto.Message) {
-	o, v := old.(*tat), value.(*tat)
+	o, _ := old.(*tat) // old is nil while nothing is stored
+	v := value.(*tat)
 	v.DefaultInt32 += o.GetDefaultInt32()
 	if o.GetDefaultNestedMessage() != nil && v.DefaultNestedMessage == nil {
 		v.DefaultNestedMessage = proto.Clone(o.DefaultNestedMessage).(*testproto.TestAllTypes_NestedMessage)
 	}
 }
 func goodAfter(old, dst proto.Message) {
-	o, d := old.(*tat), dst.(*tat)
+	o, _ := old.(*tat)
+	d := dst.(*tat)
 	if o.GetDefaultString() != d.GetDefaultString() {
 		d.DefaultInt64++
 	}
@@ -126,8 +128,11 @@ func init() {
 		notOps: []string{"Clock"},
 		build: func(e *env) *instance {
 			opts := resOptions(e)
-			// messages given to a constructor are not "handed to a write": not registered, not scribbled on
-			opts = append(opts, resource.WithInitialValue(mkTat(e)))
+			// messages given to a constructor are not "handed to a write": not registered, not scribbled on.
+			// Configuration "absent": a Value that holds nothing until the first Set (Get returns nil, Pull has no seed).
+			if e.present {
+				opts = append(opts, resource.WithInitialValue(mkTat(e)))
+			}
 			v := resource.NewValue(opts...)
 			cur := func() proto.Message { return v.Get() }
 			return &instance{
@@ -163,7 +168,7 @@ func init() {
 			if e.flip(30) {
 				opts = append(opts, resource.WithIDInterceptor(strings.ToLower))
 			}
-			for _, id := range strPool[:e.r.Intn(3)] {
+			for _, id := range e.initialIDs() {
 				opts = append(opts, resource.WithInitialRecord(id, mkTat(e)))
 			}
 			c := resource.NewCollection(opts...)
